@@ -716,11 +716,21 @@ func (rn *runner) runSchedule(sc schedule, worker int) {
 		}
 		// heal
 		pi.HealTick = tick()
+		slowReplay := false
 		switch f.Kind {
 		case "pause":
 			cl.Stores[victim].Resume()
 		default:
-			if err := cl.Stores[victim].Start(); err != nil {
+			// every other restart applies slowly: the committed entries of the local raft log are
+			// handed over again in small chunks after a restart, and with a pause before each
+			// hand-over the leader's first contact (which raises the commit index) arrives while
+			// that re-delivery is still below the commit index the store had persisted - a chunk
+			// then straddles it (needs a long log otherwise)
+			var env []string
+			if slowReplay = len(phases)%2 == 0 && f.Kind != unreplTail; slowReplay {
+				env = append(env, "VERIF_POINTS=raft-before-publish=sleep(150)")
+			}
+			if err := cl.Stores[victim].Start(env...); err != nil {
 				c.Broken("restart store: %v", err)
 				return
 			}
@@ -751,6 +761,12 @@ func (rn *runner) runSchedule(sc schedule, worker int) {
 			phases = append(phases, pi)
 			finish()
 			return
+		}
+		if slowReplay {
+			// let the slowed re-delivery meet the leader's appends, then apply at full speed again
+			time.Sleep(4 * time.Second)
+			_ = cl.StoreCtl(victim, "POST", "/verif/points", "")
+			c.Count("restarts-with-slowed-raft-apply", 1)
 		}
 		down = -1
 		step = stepHealed
